@@ -231,6 +231,40 @@ Proof.
       split; [intros _; exact E | eapply Equiv_Agree; eassumption].
 Qed.
 
+(* ------------------------------------------------------------------ removal of the plug snap *)
+Lemma remove_cases : forall s f, Agree s -> excluded s ORemove f = false ->
+  let r := run_change s ORemove f in
+  ((snd r = true \/ snd (fst r) = false) -> Equiv (fst (fst r)) s) /\ Agree (fst (fst r)).
+Proof.
+  intros s f AG EX. cbn [run_change]. unfold run_remove. pose proof AG as [A1 [A2 A3]].
+  destruct f as [| |k|]; cbn [excluded] in EX; try discriminate EX; cbn [fst snd].
+  - (* success *) split; [intros [H | H]; discriminate|]. split; [|split]; intro x; cbn [s_conns s_repo s_profc s_profp]; try reflexivity.
+    destruct (is_nil (s_repo s)) eqn:NI; [|reflexivity]. rewrite A3. destruct (s_repo s); [reflexivity | discriminate].
+  - split; [intros _; apply Equiv_refl | exact AG].
+  - (* failure after everything: all undone *)
+    assert (R0 : forall x, mem x (active_ids (fold_left del (s_repo s) (s_conns s))) = false).
+    { intro x. rewrite mem_active_ids, lookup_fold_del. destruct (mem x (s_repo s)) eqn:M; [reflexivity|]. rewrite <- A1. exact M. }
+    assert (R1 : forall x, mem x (fold_left (fun r id => add id r) (s_repo s) (active_ids (fold_left del (s_repo s) (s_conns s)))) = mem x (s_repo s)).
+    { intro x. rewrite mem_fold_add, R0. apply orb_false_r. }
+    assert (E : Equiv (mkSt (s_conns s) (fold_left (fun r id => add id r) (s_repo s) (active_ids (fold_left del (s_repo s) (s_conns s))))
+                 (if is_nil (s_repo s) then active_ids (fold_left del (s_repo s) (s_conns s))
+                  else fold_left (fun r id => add id r) (s_repo s) (active_ids (fold_left del (s_repo s) (s_conns s))))
+                 (if is_nil (s_repo s)
+                  then (if is_nil (active_ids (fold_left del (s_repo s) (s_conns s))) then s_profp s else active_ids (fold_left del (s_repo s) (s_conns s)))
+                  else fold_left (fun r id => add id r) (s_repo s) (active_ids (fold_left del (s_repo s) (s_conns s))))) s).
+    { split; [|split; [|split]]; intro x; cbn [s_conns s_repo s_profc s_profp].
+      - reflexivity.
+      - apply R1.
+      - destruct (is_nil (s_repo s)) eqn:NI.
+        + rewrite R0, A2. destruct (s_repo s); [reflexivity | discriminate].
+        + rewrite R1. symmetry. apply A2.
+      - destruct (is_nil (s_repo s)) eqn:NI.
+        + destruct (is_nil (active_ids (fold_left del (s_repo s) (s_conns s)))) eqn:N0; [reflexivity|].
+          assert (X : is_nil (active_ids (fold_left del (s_repo s) (s_conns s))) = true) by (apply is_nil_mem; exact R0). congruence.
+        + rewrite R1. symmetry. apply A3. }
+    split; [intros _; exact E | eapply Equiv_Agree; eassumption].
+Qed.
+
 Ltac pointwise A1 A2 A3 L M id :=
   let x := fresh "x" in
   intro x; cbn [s_conns s_repo s_profc s_profp];
@@ -245,7 +279,7 @@ Lemma change_cases : forall s o f, Agree s -> excluded s o f = false ->
   ((snd r = true \/ snd (fst r) = false) -> Equiv (fst (fst r)) s) /\ Agree (fst (fst r)).
 Proof.
   intros s o f AG EX.
-  destruct o as [id auto byg | id forget ad bh | ]; [ | | apply autoconnect_cases; assumption].
+  destruct o as [id auto byg | id forget ad bh | | ]; [ | | apply remove_cases; assumption | apply autoconnect_cases; assumption].
   all: destruct AG as [A1 [A2 A3]]; destruct s as [conns repo pc pp]; cbn [s_conns s_repo s_profc s_profp] in *;
     unfold is_active, active in A1.
   all: destruct f as [| |k|];
@@ -278,12 +312,14 @@ Fixpoint safe_history (s : st) (h : list (op * fail)) : Prop :=
   match h with
   | [] => True
   | (o, f) :: r => excluded s o f = false /\ safe_history (fst (fst (run_change s o f))) r
+                   (* a successful removal of the plug snap ends the history: the model's world has both snaps installed *)
+                   /\ (o = ORemove -> snd (run_change s o f) = false -> r = [])
   end.
 
 Theorem settled_agree : forall h s, Agree s -> safe_history s h -> Agree (run_history s h).
 Proof.
   induction h as [|[o f] r IH]; intros s A S; cbn in *; [assumption|].
-  destruct S as [E S]. apply IH; [apply step_agree; assumption | assumption].
+  destruct S as [E [S _]]. apply IH; [apply step_agree; assumption | assumption].
 Qed.
 
 (* start-up *)
@@ -367,6 +403,17 @@ Proof.
     destruct (mem x univ); [|reflexivity]. destruct (lookup (s_conns s) x); [reflexivity | discriminate].
   - split; [reflexivity|]. cbn [setup_profiles connect_all s_conns]. rewrite lookup_fold_set, MN. cbn [s1 setup_profiles s_conns].
     destruct (mem x univ); [|reflexivity]. destruct (lookup (s_conns s) x); reflexivity.
+Qed.
+
+(* after a successful removal no conns entry and no repository connection is left (every id names the removed snap), and
+   both profile sets are empty *)
+Theorem remove_success : forall s, Agree s ->
+  let r := run_change s ORemove NoFail in
+  snd r = false /\ s_conns (fst (fst r)) = [] /\ s_repo (fst (fst r)) = [] /\ s_profc (fst (fst r)) = []
+  /\ forall x, mem x (s_profp (fst (fst r))) = false.
+Proof.
+  intros s [A1 [A2 A3]]. cbn [run_change]. unfold run_remove. cbn [fst snd s_conns s_repo s_profc s_profp]. repeat split. intro x. destruct (is_nil (s_repo s)) eqn:NI; [|reflexivity].
+  rewrite A3. destruct (s_repo s); [reflexivity | discriminate].
 Qed.
 
 (* former finding 8 (repaired by commit 63d7dd9 in /repo): a disconnect / forget task that fails in ANY of its security
